@@ -66,6 +66,9 @@ static void parse_stat(const char * prefix, stat_t * st) {
   st->ok = 1; for (int i = V_S_CREATE; i < V_N; i++) if (!st->have[i]) st->ok = 0;
 }
 
+static int component_skip(int nf, int oi) { (void)nf; (void)oi; return 0; }
+static const char * const AUX_NAMES[4] = { 0, 0, 0, 0 };
+
 static void component_case(void) {
   const oracle_t * o = CASE.o; const sched_t * s = CASE.s;
   long X[V_N], V[V_N]; char cls[100];
